@@ -16,7 +16,7 @@ theorem Sim.ite {α β : Type} {R : α → β → Prop} {c : Prop} [Decidable c]
 
 /-- discharge `decide p = true → arithmetic` side conditions -/
 macro "dec_omega" : tactic =>
-  `(tactic| (intro hh; (try simp at hh); omega))
+  `(tactic| (intro hh; first | (have hh' := of_decide_eq_true hh; omega) | (simp at hh; omega) | omega))
 
 /-- what an iteration may ask the loop to skip: at least 1 and at most `len` bytes -/
 def StepOk (len : Nat) : Step → Prop
@@ -25,16 +25,29 @@ def StepOk (len : Nat) : Step → Prop
 
 def StepRel (len : Nat) (a b : Step) : Prop := a = b ∧ StepOk len a
 
-theorem stepRel_err (len : Nat) (l : Layer) (o : TcpOption) (t : Bool) :
+theorem stepRel_err (len : Nat) (l : OptSt) (o : TcpOption) (t : Bool) :
     Sim (StepRel len) (Res.ok (errStep l o t)) (Res.ok (errStep l o t)) :=
   Sim.ok ⟨rfl, trivial⟩
 
-theorem stepRel_cont {len n : Nat} (l : Layer) (h1 : 1 ≤ n) (h2 : n ≤ len) :
+theorem stepRel_cont {len n : Nat} (l : OptSt) (h1 : 1 ≤ n) (h2 : n ≤ len) :
     Sim (StepRel len) (Res.ok (Step.cont l n)) (Res.ok (Step.cont l n)) :=
   Sim.ok ⟨rfl, h1, h2⟩
 
+/-- the reads of the DSS branch stay inside the option (all 16 flag combinations) -/
+theorem dss_bounds (fF fA fa fM fm : Bool) (n : Nat)
+    (hc : ¬(n ≠ optionMptcpDsslen { fF := fF, fm := fm, fM := fM, fa := fa, fA := fA } false ∧
+            n ≠ optionMptcpDsslen { fF := fF, fm := fm, fM := fM, fa := fa, fA := fA } true)) :
+    let ackLen := if fA then (if fa then optionLenDssAck64 else optionLenDssAck) else 0
+    let dsnLen := if fm then optionLenDssDSN64 else optionLenDssDSN
+    let p4 := 4 + ackLen + dsnLen + optionLenDssSSN + optionLenDssDataLen
+    (fA = true → 4 + ackLen ≤ n) ∧ (fM = true → p4 ≤ n) ∧
+    ((fM && (n + 256 - p4 % 256) % 256 == 2) = true → p4 + optionLenDssCSum ≤ n) ∧ 4 ≤ n := by
+  cases fA <;> cases fa <;> cases fM <;> cases fm <;>
+    simp [optionMptcpDsslen, optionLenDssAck64, optionLenDssAck, optionLenDssDSN64, optionLenDssDSN,
+      optionLenDssSSN, optionLenDssDataLen, optionLenDssCSum] at hc ⊢ <;> omega
+
 section subopts
-variable {d1 d2 : Sl} (hv : SameVis d1 d2) (l : Layer) (opt : TcpOption) {n : Nat}
+variable {d1 d2 : Sl} (hv : SameVis d1 d2) (l : OptSt) (opt : TcpOption) {n : Nat}
   (h3 : 3 ≤ n) (hn : n ≤ d1.vis.length)
 include hv h3 hn
 
@@ -48,7 +61,7 @@ theorem sim_mpCapableOpt (b2 : UInt8) :
     refine Sim.bind (sim_sliceIf hv (by dec_omega)) fun _ _ e2 => ?_
     refine Sim.bind (sim_sliceIf hv (by dec_omega)) fun _ _ e3 => ?_
     refine Sim.bind (sim_u16If hv (by dec_omega)) fun _ _ e4 => ?_
-    refine Sim.bind (sim_u16If hv (by intro hh; simp at hh; trace_state; omega)) fun _ _ e5 => ?_
+    refine Sim.bind (sim_u16If hv (by dec_omega)) fun _ _ e5 => ?_
     subst e1 e2 e3 e4 e5
     exact stepRel_cont _ (by omega) hn
 
@@ -124,6 +137,331 @@ theorem sim_mpTcpRstOpt (b2 : UInt8) :
     subst e1
     exact stepRel_cont _ (by omega) hn
 
+
+theorem sim_dssOpt :
+    Sim (StepRel d1.vis.length) (dssOpt Variant.fixed l opt d1 n) (dssOpt Variant.fixed l opt d2 n) := by
+  unfold dssOpt
+  simp only [Variant.fixed, Bool.true_and]
+  refine Sim.ite (fun _ => stepRel_err _ _ _ _) fun h4 => ?_
+  have h4' : 4 ≤ n := by simpa using h4
+  refine Sim.bind (sim_idx hv (by omega)) fun b3 _ e1 => ?_
+  subst e1
+  refine Sim.ite (fun _ => stepRel_err _ _ _ _) fun hc => ?_
+  have hb := dss_bounds (bit b3 16) (bit b3 1) (bit b3 2) (bit b3 4) (bit b3 8) n hc
+  simp only at hb
+  obtain ⟨hA, hM, hC, _⟩ := hb
+  simp only [optionLenDssSSN, optionLenDssDataLen, optionLenDssCSum] at hA hM hC ⊢
+  refine Sim.bind (sim_sliceIf hv (fun h => ⟨by omega, by have := hA h; omega⟩)) fun _ _ e2 => ?_
+  refine Sim.bind (sim_sliceIf hv (fun h => ⟨by omega, by have := hM h; omega⟩)) fun _ _ e3 => ?_
+  refine Sim.bind (sim_u32If hv (fun h => ⟨by omega, by have := hM h; omega⟩)) fun _ _ e4 => ?_
+  refine Sim.bind (sim_u16If hv (fun h => ⟨by omega, by have := hM h; omega⟩)) fun _ _ e5 => ?_
+  refine Sim.bind (sim_u16If hv (fun h => ⟨by omega, by have := hC h; omega⟩)) fun _ _ e6 => ?_
+  subst e2 e3 e4 e5 e6
+  exact stepRel_cont _ (by omega) hn
+
+
+theorem sim_addAddrOpt (b2 : UInt8) :
+    Sim (StepRel d1.vis.length) (addAddrOpt l opt d1 n b2) (addAddrOpt l opt d2 n b2) := by
+  unfold addAddrOpt
+  simp only [isValidOptionMptcpAddAddrlen, mptcpVersion0, mptcpVersion1, optionLenAddAddrv4,
+    optionLenAddAddrv6, optionLenAddAddrPort, optionLenAddAddrHmac]
+  refine Sim.ite (fun _ => stepRel_err _ _ _ _) fun hc => ?_
+  -- facts from the length validation
+  have hfacts : 8 ≤ n ∧ ((n + 256 - 8) % 256 ≤ n) := by
+    by_cases hl : b2.toNat % 16 > 1 <;> cases hb : bit b2 1 <;> simp [hl, hb] at hc <;> omega
+  obtain ⟨h8, hw⟩ := hfacts
+  refine Sim.bind (sim_idx hv (by omega)) fun b3 _ e1 => ?_
+  subst e1
+  refine Sim.bind (?_ : Sim Eq _ _) fun hm _ e2 => ?_
+  · refine Sim.ite (fun _ => ?_) fun _ => Sim.ok rfl
+    refine Sim.bind (sim_sliceFrom hv (by omega)) fun _ _ e => ?_
+    exact Sim.ok e
+  subst e2
+  refine Sim.bind (?_ : Sim Eq _ _) fun addr _ e3 => ?_
+  · refine Sim.ite (fun h => ?_) fun _ => ?_
+    · refine sim_sliceIf hv (fun _ => ⟨by omega, ?_⟩)
+      simp at h
+      split at h <;> omega
+    · refine sim_sliceIf hv (fun h => ⟨by omega, ?_⟩)
+      simp at h
+      split at h <;> omega
+  subst e3
+  refine Sim.bind (sim_u16If hv (fun h => ⟨by omega, ?_⟩)) fun _ _ e4 => ?_
+  · simp at h
+    split at h <;> omega
+  refine Sim.bind (sim_u16If hv (fun h => ⟨by omega, ?_⟩)) fun _ _ e5 => ?_
+  · simp at h
+    split at h <;> omega
+  subst e4 e5
+  exact stepRel_cont _ (by omega) hn
+
 end subopts
+
+
+theorem len_eq {d1 d2 : Sl} (hv : SameVis d1 d2) : d2.vis.length = d1.vis.length := by
+  have h : d1.vis = d2.vis := hv
+  rw [h]
+
+theorem sim_mptcpOpt {d1 d2 : Sl} (hv : SameVis d1 d2) (l : OptSt) (opt : TcpOption) :
+    Sim (StepRel d1.vis.length) (mptcpOpt Variant.fixed l opt d1) (mptcpOpt Variant.fixed l opt d2) := by
+  unfold mptcpOpt
+  simp only [Variant.fixed, Bool.true_and, if_true, Sl.len, len_eq hv]
+  refine Sim.ite (fun _ => stepRel_err _ _ _ _) fun h3 => ?_
+  have h3' : 3 ≤ d1.vis.length :=
+    Decidable.byContradiction fun hcon => h3 (decide_eq_true (by omega))
+  refine Sim.bind (sim_idx hv (by omega)) fun n8 _ e1 => ?_
+  subst e1
+  refine Sim.ite (fun _ => stepRel_err _ _ _ _) fun hn3 => ?_
+  refine Sim.ite (fun _ => stepRel_err _ _ _ _) fun hnl => ?_
+  have hn3' : 3 ≤ n8.toNat := by omega
+  have hnl' : n8.toNat ≤ d1.vis.length :=
+    Decidable.byContradiction fun hcon => hnl (decide_eq_true (by omega))
+  refine Sim.bind (sim_idx hv (by omega)) fun b2 _ e2 => ?_
+  subst e2
+  refine Sim.ite (fun _ => sim_mpCapableOpt hv _ _ hn3' hnl' _) fun _ => ?_
+  refine Sim.ite (fun _ => sim_mpJoinOpt hv _ _ hn3' hnl' _) fun _ => ?_
+  refine Sim.ite (fun _ => sim_dssOpt hv _ _ hn3' hnl') fun _ => ?_
+  refine Sim.ite (fun _ => sim_addAddrOpt hv _ _ hn3' hnl' _) fun _ => ?_
+  refine Sim.ite (fun _ => sim_remAddrOpt hv _ _ hn3' hnl') fun _ => ?_
+  refine Sim.ite (fun _ => sim_mpPrioOpt hv _ _ hn3' hnl' _) fun _ => ?_
+  refine Sim.ite (fun _ => sim_mpFailOpt hv _ _ hn3' hnl') fun _ => ?_
+  refine Sim.ite (fun _ => sim_mpFCloseOpt hv _ _ hn3' hnl') fun _ => ?_
+  refine Sim.ite (fun _ => sim_mpTcpRstOpt hv _ _ hn3' hnl' _) fun _ => ?_
+  exact stepRel_cont _ (by omega) hnl'
+
+theorem sim_genericOpt {d1 d2 : Sl} (hv : SameVis d1 d2) (l : OptSt) (opt : TcpOption) :
+    Sim (StepRel d1.vis.length) (genericOpt l opt d1) (genericOpt l opt d2) := by
+  unfold genericOpt
+  simp only [Sl.len, len_eq hv]
+  refine Sim.ite (fun _ => stepRel_err _ _ _ _) fun h2 => ?_
+  refine Sim.bind (sim_idx hv (by omega)) fun n8 _ e1 => ?_
+  subst e1
+  refine Sim.ite (fun _ => stepRel_err _ _ _ _) fun hn2 => ?_
+  refine Sim.ite (fun _ => stepRel_err _ _ _ _) fun hnl => ?_
+  refine Sim.bind (sim_slice hv (by omega) (by omega)) fun _ _ e2 => ?_
+  rw [e2.1]
+  exact stepRel_cont _ (by omega) (by omega)
+
+theorem sim_optStep {d1 d2 : Sl} (hv : SameVis d1 d2) (l : OptSt) (hpos : 0 < d1.vis.length) :
+    Sim (StepRel d1.vis.length) (optStep Variant.fixed l d1) (optStep Variant.fixed l d2) := by
+  unfold optStep
+  refine Sim.bind (sim_idx hv hpos) fun k _ e1 => ?_
+  subst e1
+  refine Sim.ite (fun _ => ?_) fun _ => ?_
+  · refine Sim.bind (sim_sliceFrom hv (by omega)) fun _ _ e2 => ?_
+    have e2' : _ = _ := e2
+    rw [e2']
+    exact Sim.ok ⟨rfl, trivial⟩
+  refine Sim.ite (fun _ => stepRel_cont _ (by omega) (by omega)) fun _ => ?_
+  refine Sim.ite (fun _ => sim_mptcpOpt hv _ _) fun _ => ?_
+  exact sim_genericOpt hv _ _
+
+/-- The option loop: same result on any view of the same bytes, no panic, and the fuel
+    `len(data)` is never exhausted (every iteration consumes at least one byte). -/
+theorem sim_optLoop : ∀ (fuel : Nat) (l : OptSt) (d1 d2 : Sl), SameVis d1 d2 → d1.vis.length ≤ fuel →
+    Sim Eq (optLoop Variant.fixed fuel l d1) (optLoop Variant.fixed fuel l d2) := by
+  intro fuel
+  induction fuel with
+  | zero =>
+    intro l d1 d2 hv hf
+    unfold optLoop
+    have h0 : d1.vis.length = 0 := by omega
+    simp only [len_eq hv, h0, if_true]
+    exact Sim.ok rfl
+  | succ fuel ih =>
+    intro l d1 d2 hv hf
+    unfold optLoop
+    simp only [len_eq hv]
+    refine Sim.ite (fun _ => Sim.ok rfl) fun hne => ?_
+    have hs := sim_optStep hv l (by omega)
+    generalize optStep Variant.fixed l d1 = r1 at hs ⊢
+    generalize optStep Variant.fixed l d2 = r2 at hs ⊢
+    cases hs with
+    | err e => exact Sim.err e
+    | ok h =>
+      obtain ⟨rfl, hok⟩ := h
+      rename_i a
+      cases a with
+      | stop o => exact Sim.ok rfl
+      | cont l' n =>
+        obtain ⟨h1, h2⟩ := hok
+        simp only [show ¬ n > d1.vis.length by omega, if_false]
+        exact ih l' _ _ (by show List.drop n d1.vis = List.drop n d2.vis; rw [(hv : d1.vis = d2.vis)]) (by simp [List.length_drop]; omega)
+
+/-- DecodeFromBytes (fixed code): any two buffers holding the same data give the same,
+    non-panicking outcome. -/
+theorem sim_decodeFromBytes (old : Layer) (vis e1 e2 : Bytes) :
+    Sim Eq (decodeFromBytes Variant.fixed old ⟨vis, e1⟩) (decodeFromBytes Variant.fixed old ⟨vis, e2⟩) := by
+  have hv : SameVis ⟨vis, e1⟩ ⟨vis, e2⟩ := rfl
+  unfold decodeFromBytes
+  simp only [Sl.len]
+  refine Sim.ite (fun _ => Sim.ok rfl) fun h20 => ?_
+  have h20' : 20 ≤ vis.length := by omega
+  refine Sim.bind (sim_slice hv (by omega) (by simp only; omega)) fun sp1 sp2 esp => ?_
+  refine Sim.bind (sim_u16 esp (by omega)) fun _ _ e1 => ?_
+  refine Sim.bind (sim_slice hv (by omega) (by simp only; omega)) fun dp1 dp2 edp => ?_
+  refine Sim.bind (sim_u16 edp (by omega)) fun _ _ e2 => ?_
+  refine Sim.bind (sim_slice hv (by omega) (by simp only; omega)) fun _ _ es => ?_
+  refine Sim.bind (sim_u32 es (by omega)) fun _ _ e3 => ?_
+  refine Sim.bind (sim_slice hv (by omega) (by simp only; omega)) fun _ _ es => ?_
+  refine Sim.bind (sim_u32 es (by omega)) fun _ _ e4 => ?_
+  refine Sim.bind (sim_idx hv (by simp only; omega)) fun b12 _ e5 => ?_
+  refine Sim.bind (sim_idx hv (by simp only; omega)) fun b13 _ e6 => ?_
+  refine Sim.bind (sim_slice hv (by omega) (by simp only; omega)) fun _ _ es => ?_
+  refine Sim.bind (sim_u16 es (by omega)) fun _ _ e7 => ?_
+  refine Sim.bind (sim_slice hv (by omega) (by simp only; omega)) fun _ _ es => ?_
+  refine Sim.bind (sim_u16 es (by omega)) fun _ _ e8 => ?_
+  refine Sim.bind (sim_slice hv (by omega) (by simp only; omega)) fun _ _ es => ?_
+  refine Sim.bind (sim_u16 es (by omega)) fun _ _ e9 => ?_
+  subst e1 e2 e3 e4 e5 e6 e7 e8 e9
+  rw [esp.1, edp.1]
+  refine Sim.ite (fun _ => Sim.ok rfl) fun h5 => ?_
+  refine Sim.ite (fun _ => Sim.ok rfl) fun hds => ?_
+  refine Sim.bind (sim_slice hv (by omega) (by simp only; omega)) fun _ _ ec => ?_
+  refine Sim.bind (sim_sliceFrom hv (by simp only; omega)) fun _ _ ep => ?_
+  refine Sim.bind (sim_slice hv (by omega) (by simp only; omega)) fun od1 od2 eo => ?_
+  rw [ec.1, (ep : _ = _)]
+  have hl : od2.vis.length = od1.vis.length := by rw [eo.1]
+  rw [hl]
+  refine Sim.bind (sim_optLoop _ _ od1 od2 eo.1 (Nat.le_refl _)) fun _ _ er => ?_
+  subst er
+  exact Sim.ok rfl
+
+theorem sim_slice_val {s t : Sl} (h : SameVis s t) {a b : Nat} (hab : a ≤ b) (hb : b ≤ s.vis.length) :
+    Sim (fun x y => x.vis = (s.vis.drop a).take (b - a) ∧ y.vis = (s.vis.drop a).take (b - a))
+      (s.slice a b) (t.slice a b) := by
+  have hv : s.vis = t.vis := h
+  have ht : b ≤ t.vis.length := by rw [← hv]; exact hb
+  rw [Sl.slice_ok hab hb, Sl.slice_ok hab ht]
+  exact Sim.ok ⟨rfl, by simp [hv]⟩
+
+/-- the public part of a layer: everything but the checksum pseudo-header configuration
+    (`SetNetworkLayerForChecksum`), which DecodeFromBytes is not meant to touch -/
+def Layer.pub (l : Layer) : Layer := { l with pseudo := none }
+
+/-- same outcome; on success all fields (but the pseudo-header configuration) equal -/
+def ResetRel (o1 o2 : DecOut) : Prop :=
+  o1.trunc = o2.trunc ∧ o1.err = o2.err ∧ (o1.err = false → o1.layer.pub = o2.layer.pub)
+
+/-- What a caller observes of a decode: truncation flag, error status and — on success — every
+    field of the layer (but the pseudo-header configuration). -/
+def resultView (r : Res DecOut) : Res (Bool × Bool × Option Layer) :=
+  match r with
+  | .ok o => .ok (o.trunc, o.err, if o.err then none else some o.layer.pub)
+  | .err e => .err e
+  | .panic k => .panic k
+
+theorem resultView_of_sim {r1 r2 : Res DecOut} (h : Sim ResetRel r1 r2) : resultView r1 = resultView r2 := by
+  cases h with
+  | err e => rfl
+  | ok h =>
+    rename_i o1 o2
+    obtain ⟨h1, h2, h3⟩ := h
+    unfold resultView
+    simp only
+    cases he : o1.err with
+    | true => rw [← h2, he, h1]; simp
+    | false => rw [← h2, he, h1, h3 he]
+
+/-- the port bytes behind TransportFlow are the first four bytes of the data -/
+def PortFacts (vis : Bytes) (o : DecOut) : Prop :=
+  20 ≤ vis.length → o.layer.sPort = vis.take 2 ∧ o.layer.dPort = (vis.drop 2).take 2
+
+def DecRel (vis : Bytes) (o1 o2 : DecOut) : Prop := ResetRel o1 o2 ∧ PortFacts vis o1
+
+/-- DecodeFromBytes (fixed code) into two different old layers (and buffers): same outcome. -/
+theorem sim_decodeFromBytes_old (old1 old2 : Layer) (vis e1 e2 : Bytes) :
+    Sim (DecRel vis) (decodeFromBytes Variant.fixed old1 ⟨vis, e1⟩) (decodeFromBytes Variant.fixed old2 ⟨vis, e2⟩) := by
+  have hv : SameVis ⟨vis, e1⟩ ⟨vis, e2⟩ := rfl
+  unfold decodeFromBytes
+  simp only [Sl.len]
+  refine Sim.ite (fun hlt => Sim.ok ⟨⟨rfl, rfl, fun h => by cases h⟩, fun h => by omega⟩) fun h20 => ?_
+  have h20' : 20 ≤ vis.length := by omega
+  refine Sim.bind (sim_slice_val hv (by omega) (by simp only; omega)) fun sp1 sp2 esp' => ?_
+  have esp : SameVisLen 2 sp1 sp2 := ⟨by rw [esp'.1, esp'.2], by rw [esp'.1]; simp [List.length_take]; omega⟩
+  refine Sim.bind (sim_u16 esp (by omega)) fun _ _ e1 => ?_
+  refine Sim.bind (sim_slice_val hv (by omega) (by simp only; omega)) fun dp1 dp2 edp' => ?_
+  have edp : SameVisLen 2 dp1 dp2 := ⟨by rw [edp'.1, edp'.2], by rw [edp'.1]; simp [List.length_take, List.length_drop]; omega⟩
+  refine Sim.bind (sim_u16 edp (by omega)) fun _ _ e2 => ?_
+  refine Sim.bind (sim_slice hv (by omega) (by simp only; omega)) fun _ _ es => ?_
+  refine Sim.bind (sim_u32 es (by omega)) fun _ _ e3 => ?_
+  refine Sim.bind (sim_slice hv (by omega) (by simp only; omega)) fun _ _ es => ?_
+  refine Sim.bind (sim_u32 es (by omega)) fun _ _ e4 => ?_
+  refine Sim.bind (sim_idx hv (by simp only; omega)) fun b12 _ e5 => ?_
+  refine Sim.bind (sim_idx hv (by simp only; omega)) fun b13 _ e6 => ?_
+  refine Sim.bind (sim_slice hv (by omega) (by simp only; omega)) fun _ _ es => ?_
+  refine Sim.bind (sim_u16 es (by omega)) fun _ _ e7 => ?_
+  refine Sim.bind (sim_slice hv (by omega) (by simp only; omega)) fun _ _ es => ?_
+  refine Sim.bind (sim_u16 es (by omega)) fun _ _ e8 => ?_
+  refine Sim.bind (sim_slice hv (by omega) (by simp only; omega)) fun _ _ es => ?_
+  refine Sim.bind (sim_u16 es (by omega)) fun _ _ e9 => ?_
+  subst e1 e2 e3 e4 e5 e6 e7 e8 e9
+  have hports : sp1.vis = vis.take 2 ∧ dp1.vis = (vis.drop 2).take 2 := ⟨by simpa using esp'.1, by simpa using edp'.1⟩
+  rw [← esp.1, ← edp.1]
+  refine Sim.ite (fun _ => Sim.ok ⟨⟨rfl, rfl, fun h => by cases h⟩, fun _ => hports⟩) fun h5 => ?_
+  refine Sim.ite (fun _ => Sim.ok ⟨⟨rfl, rfl, fun h => by cases h⟩, fun _ => hports⟩) fun hds => ?_
+  refine Sim.bind (sim_slice hv (by omega) (by simp only; omega)) fun _ _ ec => ?_
+  refine Sim.bind (sim_sliceFrom hv (by simp only; omega)) fun _ _ ep => ?_
+  refine Sim.bind (sim_slice hv (by omega) (by simp only; omega)) fun od1 od2 eo => ?_
+  rw [ec.1, (ep : _ = _)]
+  have hl : od2.vis.length = od1.vis.length := by rw [eo.1]
+  rw [hl]
+  refine Sim.bind (sim_optLoop _ _ od1 od2 eo.1 (Nat.le_refl _)) fun _ _ er => ?_
+  subst er
+  exact Sim.ok ⟨⟨rfl, rfl, fun _ => rfl⟩, fun _ => hports⟩
+
+
+/-- the port bytes of a decoded layer (any outcome, once the fixed header was there) -/
+theorem decode_ports (old : Layer) (data foreign : Bytes) (o : DecOut)
+    (h : decode Variant.fixed old data foreign = .ok o) (hlen : 20 ≤ data.length) :
+    o.layer.sPort = data.take 2 ∧ o.layer.dPort = (data.drop 2).take 2 := by
+  have hs := sim_decodeFromBytes_old old old data foreign foreign
+  unfold decode at h
+  rw [h] at hs
+  cases hs with
+  | ok hr => exact hr.2 hlen
+
+/-- a decode without error has seen at least the 20-byte fixed header -/
+theorem decode_ok_len (v : Variant) (old : Layer) (data foreign : Bytes) (o : DecOut)
+    (h : decode v old data foreign = .ok o) (he : o.err = false) : 20 ≤ data.length := by
+  apply Decidable.byContradiction
+  intro hlt
+  unfold decode decodeFromBytes at h
+  have : (⟨data, foreign⟩ : Sl).len < 20 := by simp only [Sl.len]; omega
+  rw [if_pos this] at h
+  cases h
+  cases he
+
+/-- Fuel is irrelevant once it covers the data: the loop never runs out (termination). -/
+theorem optLoop_fuel : ∀ (f1 f2 : Nat) (l : OptSt) (d : Sl), d.vis.length ≤ f1 → d.vis.length ≤ f2 →
+    optLoop Variant.fixed f1 l d = optLoop Variant.fixed f2 l d := by
+  intro f1
+  induction f1 with
+  | zero =>
+    intro f2 l d h1 h2
+    have h0 : d.vis.length = 0 := by omega
+    cases f2 <;> (unfold optLoop; simp [h0])
+  | succ f1 ih =>
+    intro f2 l d h1 h2
+    by_cases h0 : d.vis.length = 0
+    · cases f2 <;> (unfold optLoop; simp [h0])
+    · cases f2 with
+      | zero => omega
+      | succ f2 =>
+        unfold optLoop
+        simp only [h0, if_false]
+        have hs := sim_optStep (d1 := d) (d2 := d) rfl l (by omega)
+        generalize optStep Variant.fixed l d = r at hs ⊢
+        cases hs with
+        | err e => rfl
+        | ok h =>
+          obtain ⟨_, hok⟩ := h
+          rename_i a _
+          cases a with
+          | stop o => rfl
+          | cont l' n =>
+            obtain ⟨hn1, hn2⟩ := hok
+            simp only [show ¬ n > d.vis.length by omega, if_false]
+            exact ih f2 l' _ (by simp [List.length_drop]; omega) (by simp [List.length_drop]; omega)
 
 end Gp.Tcp
